@@ -317,8 +317,83 @@ func c16CKKSFuncs() []c16CKKSFunc {
 	}
 }
 
+// c16CKKSScratch: ShallowCopy of every mpckks protocol shares no scratch buffer (polynomials, big integers) with the original
+func c16CKKSScratch(c *Ctx, set c16CKKSSet) {
+	flood := ring.DiscreteGaussian{Sigma: 3.2, Bound: 19.2}
+	e2s, _ := mpckks.NewEncToShareProtocol(set.cp, flood)
+	c14SharedScratch(c, "C16", "mpckks.EncToShareProtocol", e2s, e2s.ShallowCopy())
+	s2e, _ := mpckks.NewShareToEncProtocol(set.cp, flood)
+	c14SharedScratch(c, "C16", "mpckks.ShareToEncProtocol", s2e, s2e.ShallowCopy())
+	mt, _ := mpckks.NewMaskedLinearTransformationProtocol(set.cp, set.cp, 64, flood)
+	mc := mt.ShallowCopy()
+	c14SharedScratch(c, "C16", "mpckks.MaskedLinearTransformationProtocol", mt, mc)
+	c14SharedScratch(c, "C16", "mpckks.MaskedLinearTransformationProtocol(copy_of_copy)", mc, mc.ShallowCopy())
+	c14SharedScratch(c, "C16", "mpckks.MaskedLinearTransformationProtocol.WithParams", mt, mt.WithParams(set.cp))
+	rf, _ := mpckks.NewRefreshProtocol(set.cp, 64, flood)
+	c14SharedScratch(c, "C16", "mpckks.RefreshProtocol", rf, rf.ShallowCopy())
+}
+
+// c16CKKSHalfRing: masked transform from ring degree 2N to N with a ciphertext that has MORE slots than the output ring
+// supports: an error is expected (the transform cannot be carried out), not a panic.
+func c16CKKSHalfRing(c *Ctx) {
+	in := c16NewCKKS("ckksIn5", 5, []int{50, 45}, []int{55}, 25)
+	out := c16NewCKKS("ckksOut4", 4, []int{50, 45}, []int{55}, 25)
+	flood := ring.DiscreteGaussian{Sigma: 3.2, Bound: 19.2}
+	for _, logSlots := range []int{out.cp.LogMaxSlots(), in.cp.LogMaxSlots()} {
+		p, err := mpckks.NewMaskedLinearTransformationProtocol(in.cp, out.cp, 64, flood)
+		if err != nil {
+			panic(err)
+		}
+		kIn, kOut := c14GenKeys(in.c14Set, 1), c14GenKeys(out.c14Set, 1)
+		pt := ckks.NewPlaintext(in.cp, in.maxQ())
+		pt.LogDimensions.Cols = logSlots
+		values := make([]complex128, pt.Slots())
+		for i := range values {
+			values[i] = complex(float64(i%7)/8, float64(i%5)/8)
+		}
+		_ = in.enc.Encode(values, pt)
+		ct := ckks.NewCiphertext(in.cp, 1, in.maxQ())
+		_ = rlwe.NewEncryptor(in.cp, kIn.ideal).Encrypt(pt, ct)
+		_, crs := c14CRS(c)
+		tooMany := logSlots > out.cp.LogMaxSlots()
+		v := Try(func() string {
+			crp := p.SampleCRP(out.maxQ(), crs)
+			sh := p.AllocateShare(in.maxQ(), out.maxQ())
+			if err := p.GenShare(kIn.sk[0], kOut.sk[0], 40, ct, crp, nil, &sh); err != nil {
+				return "err"
+			}
+			res := ckks.NewCiphertext(out.cp, 1, out.maxQ())
+			if err := p.Transform(ct, nil, crp, sh, res); err != nil {
+				return "err"
+			}
+			have := make([]complex128, len(values))
+			if err := out.enc.Decode(rlwe.NewDecryptor(out.cp, kOut.ideal).DecryptNew(res), have); err != nil {
+				return "decode_error"
+			}
+			for i := range have {
+				if math.Abs(real(have[i])-real(values[i])) > 1e-3 || math.Abs(imag(have[i])-imag(values[i])) > 1e-3 {
+					return "refreshed_values_differ"
+				}
+			}
+			return "ok"
+		})
+		detail := ""
+		switch {
+		case tooMany && v != "err":
+			detail = "more_slots_than_the_output_ring:" + v + "_instead_of_error"
+		case !tooMany && v != "ok":
+			detail = v
+		}
+		c.Probe("transform_half_ring", fmt.Sprintf("ckks logN=5->4 logSlots=%d within_precision", logSlots), "C16-ckks-halfring-slots", detail)
+	}
+}
+
 func c16CKKS(c *Ctx, ns []int) {
 	funcs := c16CKKSFuncs()
+	c14Guard(c, "C16-harness-panic", "c16CKKSHalfRing", func() { c16CKKSHalfRing(c) })
+	for _, set := range c16CKKSSets() {
+		c14Guard(c, "C16-harness-panic", "c16CKKSScratch", func() { c16CKKSScratch(c, set) })
+	}
 	c16MinLevelTies(c)
 	for si, set := range c16CKKSSets() {
 		// at the returned minimum level, for non-power-of-two party counts, with λ chosen so that
@@ -585,6 +660,23 @@ func c16CKKSRun(c *Ctx, set c16CKKSSet, n, lin, lout int, sigma float64, logBoun
 		own := mpckks.NewAdditiveShare(set.cp, ct.LogSlots())
 		e2s[0].GetShare(&sec[0], agg, ct, &own)
 		final := append([]multiparty.AdditiveShareBigint{own}, sec[1:]...)
+		{
+			hl := fmt.Sprintf("ckks set=%s lin=%d logSlots=%d", set.name, lin, logSlots)
+			ctB := c14RandCt(c, params, 1, lin)
+			*ctB.MetaData = *ct.MetaData
+			c16History(c, "mpckks.EncToShareProtocol.GetShare(nil)", hl, func() string { return c16BigVec(masked.Value) }, func() {
+				o := mpckks.NewAdditiveShare(set.cp, ct.LogSlots())
+				e2s[0].GetShare(nil, agg, ctB, &o)
+			})
+			c16History(c, "mpckks.EncToShareProtocol.GetShare", hl, func() string { return c16BigVec(own.Value) }, func() {
+				o := mpckks.NewAdditiveShare(set.cp, ct.LogSlots())
+				e2s[0].GetShare(&sec[0], agg, ctB, &o)
+			})
+			c16History(c, "mpckks.EncToShareProtocol.GenShare", hl, func() string { return c16BigVec(sec[0].Value) + " " + c16PolySnap(pub[0].Value) }, func() {
+				s2, p2 := mpckks.NewAdditiveShare(set.cp, ct.LogSlots()), e2s[0].AllocateShare(lin)
+				_ = e2s[0].GenShare(keys.sk[0], logBound, ctB, &s2, &p2)
+			})
+		}
 
 		// e2s_sum: Σ shares − phase = Σ e_i
 		bound := big.NewInt(int64(n) * Bn)
@@ -641,6 +733,10 @@ func c16CKKSRun(c *Ctx, set c16CKKSSet, n, lin, lout int, sigma float64, logBoun
 			}
 		}
 		c.Probe("e2s_s2e_id", label+" within_noise_bound", "C16-ckks-s2e", detail)
+		c16History(c, "mpckks.ShareToEncProtocol.GenShare", fmt.Sprintf("ckks set=%s lout=%d", set.name, lout), func() string { return c16PolySnap(sh[0].Value) }, func() {
+			o := s2e[0].AllocateShare(lout)
+			_ = s2e[0].GenShare(keys.sk[0], crp, ct.MetaData, final[n-1], &o)
+		})
 		// refused calls keep their receivers
 		lab := fmt.Sprintf("ckks set=%s lin=%d lout=%d", set.name, lin, lout)
 		tooBig := uint(params.RingQ().AtLevel(lin).ModulusAtLevel[lin].BitLen() + 1)
@@ -904,6 +1000,17 @@ func c16CKKSRun(c *Ctx, set c16CKKSSet, n, lin, lout int, sigma float64, logBoun
 	// refused calls keep their receivers (`out` holds the valid refreshed ciphertext)
 	if detail == "" {
 		lab := fmt.Sprintf("ckks set=%s out=%s lin=%d lout=%d", set.name, oset.name, lin, lout)
+		ctB := c14RandCt(c, params, 1, lin)
+		*ctB.MetaData = *ct.MetaData
+		c16History(c, "mpckks.MaskedLinearTransformationProtocol.GenShare", lab, func() string { return c16RefreshSnap(&shares[0]) }, func() {
+			o := protos[0].AllocateShare(lin, lout)
+			_ = protos[0].GenShare(keys.sk[0], okeys.sk[0], logBound, ctB, crp, tf, &o)
+		})
+		c16History(c, "mpckks.MaskedLinearTransformationProtocol.Transform", lab, func() string { return c16CtSnap(out) }, func() {
+			sh := protos[0].AllocateShare(lin, lout)
+			_ = protos[0].GenShare(keys.sk[0], okeys.sk[0], logBound, ctB, crp, tf, &sh)
+			_ = protos[0].Transform(ctB, tf, crp, sh, ckks.NewCiphertext(oset.cp, 1, oset.maxQ()))
+		})
 		aggSnap := func() string { return c16RefreshSnap(&agg) }
 		shSnap := func() string { return c16RefreshSnap(&shares[0]) }
 		outSnap := func() string { return c16CtSnap(out) }
